@@ -98,12 +98,33 @@ class SrvAdapter:
     ('fn' | 'class'), always_connect, async_handlers, asyncio, max_sid,
     serializer."""
 
-    def __init__(self, cfg):
+    def __init__(self, cfg, loop=None, daemon=None):
         self.cfg = cfg
         self.is_async = bool(cfg.get('asyncio'))
-        self.loop = vloop.new_loop() if self.is_async else None
+        self.loop = (loop or vloop.new_loop()) if self.is_async else None
+        self.daemon = daemon if daemon is not None else set()
         self.tap = _LogTap()
         self.reset()
+
+    # hooks for the cluster / instrumented variants (harness/pubsub.py, admin)
+    def _extra_server_kw(self):
+        return {}
+
+    def _extra_act(self, a):
+        return False
+
+    def _harness_objects(self):
+        return ()
+
+    def _cb_tok(self, v):
+        return getattr(v, 'tag', 'call')
+
+    def _cb_next(self, real_sid, name, d):
+        # 'next' is observed (highest id seen on the wire for this client
+        # + 1), the outstanding set is whatever callable the manager holds
+        return max([self.maxid.get(name, 0)] +
+                   [k for k, v in d.items()
+                    if callable(v) and isinstance(k, int)]) + 1
 
     # ------------------------------------------------------------ plumbing
     def _run(self, x):
@@ -113,7 +134,8 @@ class SrvAdapter:
                 # let background tasks finish (joined before comparison)
                 for _ in range(50):
                     pend = [t for t in asyncio.all_tasks()
-                            if t is not asyncio.current_task()]
+                            if t is not asyncio.current_task()
+                            and t not in self.daemon]
                     if not pend:
                         break
                     done, _p = await asyncio.wait(pend, timeout=1)
@@ -141,6 +163,7 @@ class SrvAdapter:
         ns_opt = cfg.get('ns_opt', 'default')
         if ns_opt != 'default':
             kw['namespaces'] = ns_opt
+        kw.update(self._extra_server_kw())
         if self.is_async:
             asyncio.set_event_loop(self.loop)
             sio = socketio.AsyncServer(async_mode='asgi', **kw)
@@ -391,6 +414,8 @@ class SrvAdapter:
 
                     def cb(*args, _tag=a['cb']):
                         me.cbs.append({'tag': _tag, 'args': toks(args)})
+                        if me.flags.get('cbRaise'):
+                            raise Boom('callback')
                     cb.tag = a['cb']
                     kw['callback'] = cb
                 self._call(sio.emit, a['ev'], self._emit_data(a),
@@ -434,6 +459,8 @@ class SrvAdapter:
                     fl.sort()
             elif act == 'Call':
                 res = self._do_call(a)
+            elif self._extra_act(a):
+                pass
             else:
                 raise KeyError('unknown action ' + act)
         except Exception as e:  # the API call raised
@@ -675,14 +702,9 @@ class SrvAdapter:
         cb = {}
         for sid, d in m.callbacks.items():
             n = self._name(sid) if sid in self.names else self._room_tok(sid)
-            # 'next' is observed (highest id seen on the wire for this client
-            # + 1), the outstanding set is whatever callable the manager holds
-            out = {str(k): getattr(v, 'tag', 'call')
+            out = {str(k): self._cb_tok(v)
                    for k, v in d.items() if callable(v)}
-            hi = max([self.maxid.get(n, 0)] +
-                     [k for k, v in d.items()
-                      if callable(v) and isinstance(k, int)])
-            cb[n] = {'next': hi + 1, 'out': out}
+            cb[n] = {'next': self._cb_next(sid, n, d), 'out': out}
         binbuf = {}
         for eid, p in sio._binary_packet.items():
             binbuf[tname.get(eid, '?' + str(eid))] = {
@@ -742,7 +764,8 @@ class SrvAdapter:
             if isinstance(o, skip_types) or inspect.isroutine(o) or \
                     inspect.ismodule(o) or inspect.isclass(o):
                 continue
-            if o is self or o is self.tap or any(o is x for x in modelled):
+            if o is self or o is self.tap or any(o is x for x in modelled) \
+                    or any(o is x for x in self._harness_objects()):
                 continue
             if isinstance(o, dict):
                 for k, v in o.items():
